@@ -132,14 +132,14 @@ PROPS = {
     },
     "C09": {
         "batches": conn_batches([("c09", 500), ("c03", 100)], [("c09", 8000), ("c03", 2000), ("mixed", 2000)]),
-        "replay_bin": "pristine", "need": ["seq", "wire", "eof", "nohang"], "agr_need": ["seq", "wire", "eof"],
+        "replay_bin": "pristine", "need": ["seq", "heads", "bodies", "wire", "eof", "nohang"], "agr_need": ["seq", "heads", "bodies", "wire", "eof"],
         "rule": "framings x consumption prefixes (0, 1, len-1, len without EOF, len+1 with EOF, random) x ways of finishing (respond, drop, panic, into_writer) x following pipelined requests",
-        "required_tags": ["body:limited", "body:buffered", "body:chunked", "consumed:none", "consumed:some", "consumed:eof", "fin:drop", "fin:writer", "fin:respond"],
+        "required_tags": ["body:limited", "body:buffered", "body:chunked", "consumed:none", "consumed:some", "consumed:eof", "fin:drop", "fin:writer", "fin:respond", "zeroread:1", "size:huge"],
         "partial": [], "assumptions": CONN_ASSUMPTIONS,
     },
     "C10": {
-        "batches": conn_batches([("c10", 100)], [("c10", 2000), ("c16", 300)]),
-        "replay_bin": "pristine", "need": ["seq", "wire", "eof", "nohang", "results"], "agr_need": ["seq", "wire", "eof"],
+        "batches": conn_batches([("c10", 100), ("badhold", 60)], [("c10", 2000), ("c16", 300), ("badhold", 600)]),
+        "replay_bin": "pristine", "need": ["seq", "heads", "wire", "eof", "nohang", "results", "hold"], "agr_need": ["seq", "heads", "wire", "eof", "hold"],
         "rule": "every malformed / unsupported class (bad request lines, unknown version tokens, header without colon, unsupported Expect values, HTTP/2.0 and 3.0 "
                 "with and without bodies, non-ASCII bytes) at every position 0..3 of a pipeline, with earlier requests answered immediately and late, followed by further requests",
         "required_tags": ["class:e400", "class:e417", "class:e505", "class:silent", "st:400", "st:417", "st:505"],
@@ -147,7 +147,7 @@ PROPS = {
     },
     "C12": {
         "batches": conn_batches([("c12", 500)], [("c12", 8000), ("mixed", 2000)]),
-        "replay_bin": "pristine", "need": ["seq", "wire", "eof", "nohang"], "agr_need": ["seq", "wire", "eof"],
+        "replay_bin": "pristine", "need": ["seq", "heads", "wire", "eof", "nohang"], "agr_need": ["seq", "heads", "wire", "eof"],
         "rule": "version {1.0,1.1} x Connection header {absent, close, keep-alive, upgrade, other tokens, lists, letter case, substrings} at every pipeline position, "
                 "arbitrary bytes after the last request, client half-closing or keeping the connection open",
         "required_tags": ["mode:open", "mode:halfclose", "end:waiting", "end:closed"],
@@ -155,15 +155,15 @@ PROPS = {
     },
     "C16": {
         "batches": conn_batches([("c16", 100)], [("c16", 1000), ("c10", 300)]),
-        "replay_bin": "pristine", "need": ["seq", "wire", "eof", "nohang"], "agr_need": ["seq", "wire", "eof"],
+        "replay_bin": "pristine", "need": ["seq", "heads", "wire", "eof", "nohang"], "agr_need": ["seq", "heads", "wire", "eof"],
         "rule": "whitespace before / inside / after header names (framing headers and others), Content-Length values from the classes {empty, signed, non-digit, mixed, "
                 "list, overflowing, hex, decimal point} alone, next to Transfer-Encoding, and as a second Content-Length; at pipeline positions 0..2, each followed by a would-be smuggled request",
         "required_tags": ["class:smug", "st:400"],
         "partial": [], "assumptions": CONN_ASSUMPTIONS,
     },
     "C18": {
-        "batches": conn_batches([("c18", 500)], [("c18", 6000)]),
-        "replay_bin": "pristine", "need": ["wire", "bodies", "seq", "nohang"], "agr_need": ["wire", "bodies", "seq"],
+        "batches": conn_batches([("c18", 500), ("hold", 100)], [("c18", 6000), ("hold", 1000)]),
+        "replay_bin": "pristine", "need": ["wire", "bodies", "seq", "nohang", "hold"], "agr_need": ["wire", "bodies", "seq", "hold"],
         "rule": "Expect: 100-continue present/absent (letter case) x body length {0,1,10,1024,1025,3000} x Content-Length/chunked x programs {answer without reading, "
                 "as_reader once / several times, partial read, over-read} with a client that withholds the body until the server has sent something",
         "required_tags": ["st:100", "hold:1", "hold:0"],
@@ -219,16 +219,16 @@ PROPS = {
                 "(every permutation of answering order arises) or all held by one thread in arrival order; respond (small, >1 KiB, chunked), into_writer with multi-part "
                 "writes +- flush, drop; random schedules incl. baton-keeping bias; the client-side byte stream must decode, in request order, to exactly the expected messages; "
                 "plus the pristine malformed-pipeline batch (417/400 must not overtake earlier answers)",
-        "required_tags": ["fam:mt", "fin:writer", "fin:drop", "fin:respond", "n:5"],
+        "required_tags": ["fam:mt", "fin:writer", "fin:writer0", "fin:drop", "fin:respond", "n:5"],
         "partial": [], "assumptions": CTL_ASSUMPTIONS + CONN_ASSUMPTIONS,
     },
     "C06": {
-        "batches": lambda tier: ctl_batches("mt", 800, 30000, per=200)(tier) + conn_batches([("c09", 200), ("mixed", 150)], [("c09", 2000), ("mixed", 2000)])(tier),
-        "replay_bin": "controlled", "need": ["wire", "seq", "results", "nohang", "noabort"], "agr_need": ["wire", "seq", "eof"],
+        "batches": lambda tier: ctl_batches("mt", 800, 30000, per=200)(tier) + conn_batches([("c09", 200), ("mixed", 150), ("hold", 150), ("respfail", 150)], [("c09", 2000), ("mixed", 2000), ("hold", 2000), ("respfail", 2000)])(tier),
+        "replay_bin": "controlled", "need": ["wire", "seq", "results", "nohang", "noabort", "hold"], "agr_need": ["wire", "seq", "eof", "hold"],
         "rule": "handler programs {read none/part/all} x {respond, into_writer+writes+drop, upgrade, drop, panic while holding the request} for each of n pipelined requests, "
                 "sequentially (pristine, real sockets) and on concurrent handler threads (controlled); predicate: the client stream holds exactly one final response per "
                 "delivered request, 500 exactly at the dropped positions, later responses not held up",
-        "required_tags": ["fam:mt", "fin:drop", "fin:writer", "st:500"],
+        "required_tags": ["fam:mt", "fin:drop", "fin:writer", "fin:writer0", "fin:respondfail", "holdneed:1", "st:500"],
         "partial": [], "assumptions": CTL_ASSUMPTIONS + CONN_ASSUMPTIONS,
     },
     "C11": {
